@@ -138,6 +138,21 @@ fn ops_json(eps: &[Vec<Op>]) -> Value {
 const KEYS: &[&str] = &[
     "a", "b", "emb:a", "emb:b", "emb:c", "node:1", "edge:1", "table:t", "_cache:x", "_cache:y", "emb", "_cache", "_blob:meta:z",
     "", "k\u{e9}y", "emb:", "user:1",
+    // keys whose FIRST character is not ASCII (2-, 3- and 4-byte UTF-8): every byte-indexed structure of the store
+    // (shard of the metadata slab, prefix scan) sees a first BYTE that is not the first character
+    "\u{43a}\u{43b}\u{44e}\u{447}:1", "\u{e9}mile", "\u{65e5}\u{672c}:x", "\u{1F601}k",
+];
+
+/// KEY ALPHABET of the non-ASCII streams: keys that start with a 2-byte (Latin-1 supplement, Cyrillic), 3-byte (Thai,
+/// currency, CJK) or 4-byte (emoji, mathematical, U+10FFFF) character — several for each residue mod 16 of the first
+/// byte, both with `first char % 16 != first byte % 16` and with the two equal —, the empty key, keys that differ
+/// only in a later non-ASCII character, and a few ASCII keys of every class next to them.
+const UNI_KEYS: &[&str] = &[
+    "\u{43a}\u{43b}\u{44e}\u{447}:1", "\u{43a}\u{43b}\u{44e}\u{447}:2", "\u{43a}\u{43b}\u{44e}\u{447}:\u{44f}", "\u{44e}\u{433}", "\u{400}0",
+    "\u{e9}mile", "\u{f1}u", "\u{df}eta", "\u{a2}ent",
+    "\u{65e5}\u{672c}:x", "\u{672c}", "\u{e01}1", "\u{20ac}uro",
+    "\u{1F601}k", "\u{1D538}", "\u{10FFFF}z",
+    "", "emb:\u{e9}", "emb:\u{e8}", "k\u{e9}y", "k\u{e8}y", "node:\u{e9}", "_cache:\u{e9}", "a", "emb:a",
 ];
 
 #[derive(Clone, Copy, PartialEq)]
@@ -271,6 +286,9 @@ fn keys_of_images(imgs: &[Vec<String>]) -> Vec<String> {
     v
 }
 const INCOHERENT: &str = "tensor_store.exists_scan_get/disagree";
+/// a key that every admissible prefix of the acknowledged writes holds is NotFound / not reported by `exists` in the
+/// recovered store
+const ACKED_KEY_UNREADABLE: &str = "tensor_store.recover/acknowledged_key_not_readable";
 
 /// Class of one incoherent key (site + kind from the trace): the ghost of a failed put_durable — an emb: key whose
 /// put with a vector returned an error in this chain, which exists / scan report although get rejects it — is the
@@ -579,10 +597,27 @@ fn check_recovery(ctx: &mut Ctx, ds: &DiskState, cfg: &WalConfig, exp: &Expect, 
     let (d, wal, sp) = materialise(ctx, ds);
     let r = if info.bloom { TensorStore::recover_with_bloom(&wal, cfg, sp.as_deref(), BLOOM_ITEMS, BLOOM_FPR) } else { TensorStore::recover(&wal, cfg, sp.as_deref()) };
     let mut incoherent: Vec<(String, String)> = Vec::new();
+    let mut unreadable: Vec<(String, String)> = Vec::new();
     let (imp_ans, img) = match &r {
         Ok(st) => {
             let img = image_of(st);
             incoherent = incoherent_keys(st, &keys_of_images(exp.prefixes));
+            // acknowledged writes, key by key: an item every admissible prefix (>= floor) holds must be readable
+            // by `get` and reported by `exists` whatever `scan` says (rotation: known finding, judged below)
+            if !info.rotated && exp.floor < exp.prefixes.len() {
+                let cache_prefix = hex(b"_cache:");
+                for it in &exp.prefixes[exp.floor] {
+                    if it.starts_with(&cache_prefix) || !exp.prefixes[exp.floor..].iter().all(|p| p.contains(it)) {
+                        continue;
+                    }
+                    if let Some(k) = it.split_once('=').and_then(|x| String::from_utf8(nverif::unhex(x.0)).ok()) {
+                        let (e, g) = (st.exists(&k), st.get(&k).is_ok());
+                        if !(e && g) {
+                            unreadable.push((k, format!("exists={e} get_ok={g}")));
+                        }
+                    }
+                }
+            }
             (fmt_image(&img), Some(img))
         },
         // Error canonicalisation (BUILDING.md), rule 2: `recover` reports every refusal as the one variant
@@ -680,6 +715,13 @@ fn check_recovery(ctx: &mut Ctx, ds: &DiskState, cfg: &WalConfig, exp: &Expect, 
     }
     if incoherent.is_empty() {
         ctx.rep.hit("oracle.exists_scan_get_agree");
+    }
+    for (k, what) in &unreadable {
+        ctx.rep.hit(&format!("violation.{ACKED_KEY_UNREADABLE}"));
+        ctx.rep.violation(ACKED_KEY_UNREADABLE, &format!("recovered store: key {k:?} (first byte {:?}, {} bytes) is held by every admissible prefix of the acknowledged writes: {what}", k.as_bytes().first(), k.len()), cut_json());
+    }
+    if img.is_some() && unreadable.is_empty() {
+        ctx.rep.hit("oracle.every_acknowledged_key_readable");
     }
     let _ = std::fs::remove_dir_all(&d);
     matched
@@ -912,6 +954,7 @@ fn run_chain(ctx: &mut Ctx, r: &mut Rng, cc: &ChainCfg, epochs: &[Vec<Op>]) {
                     let now_len = std::fs::metadata(&wal_path).map(|m| m.len() as usize).unwrap_or(0);
                     ctx.rep.hit(if is_put { "op.put" } else { "op.delete" });
                     ctx.rep.hit(&format!("keyclass.{}", key_class(k)));
+                    ctx.rep.hit(match k.chars().next().map(char::len_utf8) { None => "key.first_char.none_empty_key", Some(1) => "key.first_char.ascii", Some(2) => "key.first_char.2_bytes", Some(3) => "key.first_char.3_bytes", _ => "key.first_char.4_bytes" });
                     if immediate && (cc.max_size.is_none() || cc.no_rotate) {
                         // the records this operation appended, decoded by the real bitcode
                         let file = std::fs::read(&wal_path).unwrap_or_default();
@@ -2452,6 +2495,7 @@ fn gen_fs_sessions(r: &mut Rng) -> Vec<FsSession> {
                 let k = match r.below(8) {
                     0 => format!("emb:e{}", r.below(3)),
                     1 => format!("node:{}", r.below(3)),
+                    3 => { let k = r.pick(UNI_KEYS).to_string(); if is_cache(&k) { "\u{44e}\u{433}".to_string() } else { k } },
                     2 if !live.is_empty() => r.pick(&live).clone(),
                     _ => {
                         next += 1;
@@ -2537,6 +2581,7 @@ fn main() {
         "ckpt_fs.leftover.none", "ckpt_fs.leftover.longer_than_image", "ckpt_fs.leftover.shorter_than_image", "ckpt_fs.state.log_fsynced", "ckpt_fs.state.tmp_created", "ckpt_fs.state.tmp_partial", "ckpt_fs.state.tmp_complete", "ckpt_fs.state.renamed", "ckpt_fs.state.marker", "ckpt_fs.state.truncated",
         "ckpt_fs.interrupted.tmp_created", "ckpt_fs.interrupted.tmp_partial", "ckpt_fs.interrupted.tmp_complete", "ckpt_fs.interrupted.after_rename", "ckpt_fs.interrupted.after_truncate", "ckpt_fs.resumed_with_leftover_temp_file", "ckpt_fs.crash_number.3",
         "oracle.installed_snapshot_is_the_store", "oracle.next_checkpoint_after_crash_state",
+        "key.first_char.none_empty_key", "key.first_char.ascii", "key.first_char.2_bytes", "key.first_char.3_bytes", "key.first_char.4_bytes", "oracle.every_acknowledged_key_readable",
     ]
     .iter()
     .map(|s| s.to_string())
@@ -2560,6 +2605,33 @@ fn main() {
         fs_chain_reported(&mut ctx, "ckpt_fs_directed", &sessions, false);
     }
     let mut t_fs = t_start.elapsed();
+    // keys whose first character is not ASCII, written, CHECKPOINTED (so that they live in the snapshot, not in the
+    // log), crash, recovery from snapshot + log, overwritten / deleted / re-created after the recovery, second and
+    // third crash: every acknowledged key must be readable by get / exists (not only listed by scan) — and the
+    // neighbours: the same keys never checkpointed (replayed from the log), checkpoint in the second session only,
+    // Manual / Batched, a Bloom-filtered store
+    {
+        let mut r = rng.fork("unicode_directed");
+        let u = |i: usize| UNI_KEYS[i].to_string();
+        // the minimal history: one put, checkpoint, crash, recover
+        for k in ["\u{43a}\u{43b}\u{44e}\u{447}:1", "\u{e9}mile", "\u{65e5}\u{672c}:x", "\u{1F601}k", "\u{400}0", ""] {
+            let cc = ChainCfg { stream: "chain_unicode_directed", random_cuts: 1, resume_full: true, ..BASE };
+            run_chain(&mut ctx, &mut r, &cc, &[vec![Op::Put(k.into(), td("v1")), Op::Ckpt], vec![Op::Put("a".into(), td("x"))]]);
+        }
+        let all: Vec<Op> = (0..UNI_KEYS.len()).map(|i| Op::Put(u(i), blob(i as u64, 1))).collect();
+        let eps_ckpt = vec![
+            { let mut v = all.clone(); v.push(Op::Ckpt); v.push(Op::Put(u(1), td("after"))); v },
+            vec![Op::Del(u(0)), Op::Put(u(5), td("v2")), Op::Put(u(9), tdv("e", 1.0, 3)), Op::Del(u(13)), Op::Ckpt, Op::Put(u(0), td("back")), Op::Del(u(10))],
+            vec![Op::Del(u(5)), Op::Put(u(13), td("again")), Op::Del(u(16))],
+        ];
+        let eps_log = vec![all.clone(), vec![Op::Del(u(0)), Op::Put(u(5), td("v2")), Op::Ckpt, Op::Del(u(9))], vec![Op::Put(u(0), td("back"))]];
+        for (mode, bloom) in [(SyncMode::Immediate, false), (SyncMode::Manual, false), (SyncMode::Batched { max_entries: 3 }, false), (SyncMode::Immediate, true)] {
+            for eps in [&eps_ckpt, &eps_log] {
+                let cc = ChainCfg { stream: "chain_unicode_directed", mode, random_cuts: 3, resume_full: mode == SyncMode::Immediate, bloom, ..BASE };
+                run_chain(&mut ctx, &mut r, &cc, eps);
+            }
+        }
+    }
     {
         let mut r = rng.fork("probes");
         // KNOWN FINDING tensor_store.wal.rotate/acked_entries_not_replayed: max_size_bytes=220, 14 Immediate
@@ -2934,6 +3006,29 @@ fn main() {
             let eps: Vec<Vec<Op>> = (0..ne).map(|_| {
                 let n = 2 + r.below(7) as usize;
                 if i % 2 == 0 { gen_ops_keys(&mut r, n, OVERLAY_KEYS, EmbPolicy::No384, false, false, &mut ctx.rep) } else { gen_ops(&mut r, n, EmbPolicy::No384, false, false, &mut ctx.rep) }
+            }).collect();
+            run_chain(&mut ctx, &mut r, &cc, &eps);
+        }
+    }
+
+    // 9b. the non-ASCII key alphabet through random crash chains: every session likely checkpoints AFTER its writes
+    //     (the keys live in the snapshot when the crash comes), all sync modes, Bloom filter now and then
+    {
+        let mut r = rng.fork("chain_unicode");
+        let n = if th { 60 } else { 16 };
+        for i in 0..n {
+            let mode = match i % 4 { 0 | 1 => SyncMode::Immediate, 2 => SyncMode::Manual, _ => SyncMode::Batched { max_entries: 2 + (i % 3) } };
+            let cc = ChainCfg { stream: "chain_unicode", mode, random_cuts: if th { 12 } else { 3 }, bloom: i % 5 == 4, ..BASE };
+            let ne = 2 + r.below(2) as usize;
+            let eps: Vec<Vec<Op>> = (0..ne).map(|_| {
+                let n = 2 + r.below(7) as usize;
+                let mut v = gen_ops_keys(&mut r, n, UNI_KEYS, EmbPolicy::No384, mode != SyncMode::Immediate, true, &mut ctx.rep);
+                if r.chance(2, 3) { v.push(Op::Ckpt); }
+                if r.chance(1, 2) {
+                    let k = r.pick(UNI_KEYS).to_string();
+                    v.push(if r.chance(2, 3) { Op::Put(k, td("tail")) } else { Op::Del(k) });
+                }
+                v
             }).collect();
             run_chain(&mut ctx, &mut r, &cc, &eps);
         }
